@@ -80,7 +80,7 @@ def mandatory_bins(tier):
     b += ["cfb_seg%d" % s for s in range(1, 17)]
     b += ["block_mixed_call_sequence_on_one_object", "adapter_objects_used_by_concurrent_threads", "key_buffer_reused_for_the_next_key", "one_block_cipher_object_used_by_concurrent_threads"]
     b += ["cbc_default_iv", "cfb_default_iv", "ofb_default_iv", "ctr_default_counter"]
-    b += ["ctr_wraparound", "ctr_carry", "all_compositions", "empty_chunk", "feeder_pkcs7", "feeder_none", "stream_bs1", "stream_bs15", "stream_bs16", "stream_bs17", "stream_bs8192", "stream_with_short_reads",
+    b += ["ctr_wraparound", "ctr_carry", "all_compositions", "empty_chunk", "feeder_pkcs7", "feeder_none", "stream_bs1", "stream_bs15", "stream_bs16", "stream_bs17", "stream_bs8192", "stream_with_short_reads", "stream_padding_none", "stream_padding_default",
           "adapter_history", "adapter_shared_key_iv", "adapter_trailing_zero_plaintext", "adapter_len_mod16_0", "adapter_len_mod16_1", "adapter_len_mod16_15", "adapter_explicit_iv", "adapter_default_iv", "adapter_long_data", "global_state_unchanged"]
     return b
 
@@ -459,9 +459,10 @@ def run_shard(spec, ctx):
             ctx.distinct("feeder", mode, key, iv, seg, ctr0, data, parts, padding)
             feeder_case(ns, ctx, mode, key, iv, seg, ctr0, data, parts, padding, rp)
             # stream helpers
-            if i % 4 == 0:
+            if i % 4 in (0, 3):
                 bs = (1, 15, 16, 17, 8192)[(i // 4) % 5]
                 ctx.bin("stream_bs%d" % bs)
+                ctx.bin("stream_padding_" + padding)
                 try:
                     short = (i // 20) % 2 == 1
                     if short:
